@@ -12,11 +12,17 @@
      nom, sh      HarfBuzz nominal glyphs (by name) and shaping results (by name) before / after
      rawgid       tables that address glyphs by raw glyph id and that the library does not decode to names
    k = "scale"    (scale_upem)
-     ub, ua, want units per em before / after / requested
-     tabs         [key, before, after] interned skeletons: everything that is NOT a design-unit number
-     items        [key, before, after, h] design-unit numbers with their bound h/2 (ScaleUpem!Within)
-     fm           [key, before, after] CFF FontMatrix * upem * 10^6 (must stay put; 2 units of conversion slack)
-     hbt, hbi     the same two kinds of rows from HarfBuzz observations
+     ub, ua, want units per em before / after / requested; num, den = want/ub reduced (checked here)
+     keys         the names of the tables / observations; the rows below are stored in columns *k (index into keys),
+                  *b (before), *a (after):
+     tk, tb, ta   interned skeletons of each table: everything that is NOT a design-unit number
+     fk, fb, fa   CFF FontMatrix * upem * 10^6 (must stay put; 2 units of conversion slack)
+     hk, hb, ha   equality-only HarfBuzz observations (glyph sequences of shaping results, outline structure, layers)
+   k = "nums"     the design-unit numbers of the scale cases: num, den (the factor), columns vb, va, h: "the stored number
+                  vb became va, and ScaleUpem!Within(k, vb, va, h) is demanded".  The same fact occurs in many cases
+                  (hundreds of corpus fonts share outlines), so the harness sends every DISTINCT fact once and joins the
+                  verdicts <<"bad" | "overflow", position>> back to the cases (clauses "scaled" / "hb-scaled" with the
+                  table name, "skip:overflow"); the arithmetic is done here only.
    k = "raised"   op ("reorder" / "scale"), exc (exception type), ub, want: the transformation or the save after it raised
 
    The verdict is the SET of failing clauses <<clause, argument>>; clauses starting with "skip:" mark a
@@ -50,19 +56,22 @@ JReorder(t) ==
        (* NoDangling: a table addressing glyphs by raw id, left as it was, while one of those ids now names another glyph *)
        \cup {<<"nodangling", r[1]>> : r \in {r \in Range(t.rawgid) : r[2] /\ \E i \in 1..Len(r[3]) : t.new[r[3][i]] # r[3][i]}}
 
-NumOK(k, r) == IF ~Fits(k, r[2], r[3], r[4]) THEN "overflow" ELSE IF Within(k, r[2], r[3], r[4]) THEN "ok" ELSE "bad"
+NumOK(k, v, v2, h) == IF ~Fits(k, v, v2, h) THEN "overflow" ELSE IF Within(k, v, v2, h) THEN "ok" ELSE "bad"
 
 JScale(t) ==
-  LET k == Factor(t.ub, t.want) IN
   IF t.ub <= 0 \/ t.want <= 0 THEN {<<"upem", "non-positive">>}
   ELSE
     (IF t.ua # t.want THEN {<<"upem", "head.unitsPerEm">>} ELSE {})
-    \cup {<<"nothingelse", r[1]>> : r \in {r \in Range(t.tabs) : r[2] # r[3]}}
-    \cup {<<"scaled", r[1]>> : r \in {r \in Range(t.items) : NumOK(k, r) = "bad"}}
-    \cup {<<"skip:overflow", r[1]>> : r \in {r \in Range(t.items) \cup Range(t.hbi) : NumOK(k, r) = "overflow"}}
-    \cup {<<"nothingelse", r[1]>> : r \in {r \in Range(t.fm) : SAbs(r[2] - r[3]) > 2}}
-    \cup {<<"hb-nothingelse", r[1]>> : r \in {r \in Range(t.hbt) : r[2] # r[3]}}
-    \cup {<<"hb-scaled", r[1]>> : r \in {r \in Range(t.hbi) : NumOK(k, r) = "bad"}}
+    (* num/den is the factor under which this case's numbers were filed as "nums" facts *)
+    \cup (IF Factor(t.ub, t.want) # <<t.num, t.den>> THEN {<<"upem", "factor-of-the-number-facts">>} ELSE {})
+    \cup {<<"nothingelse", t.keys[t.tk[i]]>> : i \in {i \in 1..Len(t.tk) : t.tb[i] # t.ta[i]}}
+    \cup {<<"nothingelse", t.keys[t.fk[i]]>> : i \in {i \in 1..Len(t.fk) : SAbs(t.fb[i] - t.fa[i]) > 2}}
+    \cup {<<"hb-nothingelse", t.keys[t.hk[i]]>> : i \in {i \in 1..Len(t.hk) : t.hb[i] # t.ha[i]}}
+
+JNums(t) ==
+  LET k == <<t.num, t.den>> IN
+  IF t.num <= 0 \/ t.den <= 0 \/ SGcd(t.num, t.den) # 1 \/ Len(t.va) # Len(t.vb) \/ Len(t.h) # Len(t.vb) THEN {<<"malformed", 0>>}
+  ELSE {<<NumOK(k, t.vb[i], t.va[i], t.h[i]), i>> : i \in {i \in 1..Len(t.vb) : NumOK(k, t.vb[i], t.va[i], t.h[i]) # "ok"}}
 
 (* the transformation raised an exception other than its own NotImplementedError (= declared unsupported, which
    the harness skips and counts) on a font that the library loads and saves untransformed.  Renumbering cannot make
@@ -76,6 +85,7 @@ Judge(t) ==
   CASE t.k = "reorder" -> JReorder(t)
     [] t.k = "scale" -> JScale(t)
     [] t.k = "raised" -> JRaised(t)
+    [] t.k = "nums" -> JNums(t)
     [] OTHER -> {<<"unknown-kind", t.k>>}
 
 Pending == {<<"pending", "">>}
